@@ -168,6 +168,12 @@ def quantifyBody (u : Int) (qvars : List Key) (forall_ : Bool) : M Int := fun m 
 def quantify (u : Int) (qvars : List Key) (forall_ : Bool) : M Int :=
   tryToReorder (quantifyBody u qvars forall_)
 
+/-- `BDD.exist(qvars, u)` -/
+def existOp (qvars : List Key) (u : Int) : M Int := quantify u qvars false
+
+/-- `BDD.forall(qvars, u)` -/
+def forallOp (qvars : List Key) (u : Int) : M Int := quantify u qvars true
+
 /-! ### compose -/
 
 def composeF (j : Nat) :
@@ -248,6 +254,12 @@ def levelOfVarE (t : Tbl) (v : String) : Except Err Nat :=
   | some l => .ok l
   | none => .error .value
 
+/-- one item of `{self.level_of_var(var): g for var, g in var_sub.items()}` -/
+def subLevelE (t : Tbl) (vg : String × Int) : Except Err (Nat × Int) :=
+  match levelOfVarE t vg.1 with
+  | .error e => .error e
+  | .ok j => .ok (j, vg.2)
+
 /-- body of `BDD.compose(f, var_sub)` (inside the decorator) -/
 def composeBody (f : Int) (varSub : List (String × Int)) : M Int := fun m =>
   match varSub with
@@ -259,10 +271,7 @@ def composeBody (f : Int) (varSub : List (String × Int)) : M Int := fun m =>
       | (.error e, m1) => (.error e, m1)
       | (.ok (r, _), m1) => (.ok r, m1)
   | _ =>
-    match mapME (fun (vg : String × Int) =>
-        match levelOfVarE m.tbl vg.1 with
-        | .error e => .error e
-        | .ok j => .ok (j, vg.2)) varSub with
+    match mapME (subLevelE m.tbl) varSub with
     | .error e => (.error e, m)
     | .ok sub =>
       match vectorComposeF sub (m.nvars + 2) f {} m with
@@ -334,9 +343,9 @@ def rename (u : Int) (dvars : List (String × String)) : M Int :=
 
 /-- the level map of `copy_bdd`: by variable name, for the names declared in both managers -/
 def copyMap (src tgt : Tbl) : List (Nat × Nat) :=
-  src.vars.toList.filterMap fun (var, l) =>
-    match tgt.vars[var]? with
-    | some l2 => some (l, l2)
+  src.vars.toList.filterMap fun vl =>
+    match tgt.vars[vl.1]? with
+    | some l2 => some (vl.2, l2)
     | none => none
 
 /-- body of `_copy_bdd_to(to_bdd, u, from_bdd)` (inside the decorator of the target) -/
